@@ -135,6 +135,12 @@ def run(ctx):
     # ---- R4 transcription
     _transcription(ctx)
 
+    # ---- the envelope verifier must actually reach this primitive for every counted OpenPGP entry
+    # (C01's rule set, re-evaluated here)
+    from . import c01
+
+    c01.run(ctx.sub("DEP-C01"))
+
 
 def _show(c):
     if isinstance(c, tuple) and c and c[0] in ("BE32", "UNHEX", "HEX"):
